@@ -45,6 +45,8 @@ pub(crate) struct Loop {
     pub start_ip: usize,
     // Placeholders for jumps to the end of the loop, updated when the loop compilation is complete
     pub jump_placeholders: Vec<usize>,
+    // The number of try blocks that were open when the loop was entered
+    pub open_try_blocks: usize,
 }
 
 #[derive(Clone, Debug, PartialEq)]
@@ -69,6 +71,9 @@ pub(crate) enum Arg {
 #[derive(Clone, Debug, Default)]
 pub(crate) struct Frame {
     loop_stack: Vec<Loop>,
+    // The number of try blocks that are currently being compiled,
+    // i.e. the number of catch points that are registered at runtime at the current position
+    open_try_blocks: usize,
     register_stack: Vec<u8>,
     local_registers: Vec<LocalRegister>,
     exported_ids: HashSet<ConstantIndex>,
@@ -338,7 +343,20 @@ impl Frame {
             start_ip: loop_start_ip,
             result_register,
             jump_placeholders: Vec::new(),
+            open_try_blocks: self.open_try_blocks,
         });
+    }
+
+    pub fn open_try_blocks(&self) -> usize {
+        self.open_try_blocks
+    }
+
+    pub fn try_block_opened(&mut self) {
+        self.open_try_blocks += 1;
+    }
+
+    pub fn try_block_closed(&mut self) {
+        self.open_try_blocks = self.open_try_blocks.saturating_sub(1);
     }
 
     pub fn push_loop_jump_placeholder(&mut self, placeholder_ip: usize) -> Result<(), FrameError> {
